@@ -88,8 +88,8 @@ type Interp struct {
 	// CheckMBounds etc. can be switched off by callers that only need the trace.
 	Monitors bool
 	// Judge names the property whose check is running ("" = both abort).
-	Judge string
-	Other []Violation
+	Judge     string
+	Other     []Violation
 	curLine   uint32
 	curFunc   string
 	stack     []string
@@ -1030,6 +1030,8 @@ func (in *Interp) execStmt(fr *frame, n *a.Node) ctl {
 		return ctlReturn
 	case a.KIOManip:
 		return in.execIOManip(fr, n.AsIOManip())
+	case a.KIterate:
+		return in.execIterate(fr, n.AsIterate())
 	}
 	in.unsupported(fmt.Sprintf("statement kind %v", n.Kind()))
 	return ctlNone
@@ -1072,6 +1074,65 @@ func (in *Interp) execIOManip(fr *frame, m *a.IOManip) ctl {
 	}
 	fr.locals[io.Ident()] = old
 	return c
+}
+
+// execIterate implements doc/note/iterate-loops.md: the assigned slices (cut to
+// the shortest one) are partitioned into windows of the clause's length, placed
+// 'advance' apart; each clause's body runs while a whole window remains, then
+// the next (else) clause continues from where the previous one stopped. The
+// unroll count does not affect semantics. Afterwards the variables are empty.
+func (in *Interp) execIterate(fr *frame, it *a.Iterate) ctl {
+	type win struct {
+		id     t.ID
+		back   *[]Value
+		lo, hi int
+	}
+	var ws []win
+	total := -1
+	for _, o := range it.Assigns() {
+		as := o.AsAssign()
+		if as.LHS().Operator() != 0 {
+			in.unsupported("iterate over " + as.LHS().Str(in.P.TM))
+		}
+		v := in.eval(fr, as.RHS())
+		elems, lo, hi := in.elements(v)
+		ws = append(ws, win{as.LHS().Ident(), elems, lo, hi})
+		if total < 0 || hi-lo < total {
+			total = hi - lo
+		}
+	}
+	if len(ws) == 0 {
+		return ctlNone
+	}
+	off := 0
+	finish := func() {
+		for _, w := range ws {
+			fr.locals[w.id] = Value{K: KSlice, Back: w.back, Lo: w.lo + off, Hi: w.lo + off}
+		}
+	}
+	for cl := it; cl != nil; cl = cl.ElseIterate() {
+		length, err1 := strconv.Atoi(in.str(cl.Length()))
+		advance, err2 := strconv.Atoi(in.str(cl.Advance()))
+		if err1 != nil || err2 != nil || length <= 0 || advance <= 0 {
+			in.unsupported("iterate clause parameters")
+		}
+		for total-off >= length {
+			in.burn()
+			for _, w := range ws {
+				fr.locals[w.id] = Value{K: KSlice, Back: w.back, Lo: w.lo + off, Hi: w.lo + off + length}
+			}
+			switch in.execBlock(fr, cl.Body()) {
+			case ctlBreak, ctlContinue:
+				// the language leaves jumps out of iterate bodies unspecified (TODO in lang/check/type.go)
+				in.unsupported("jump inside an iterate body")
+			case ctlReturn:
+				return ctlReturn
+			}
+			off += advance
+		}
+	}
+	finish()
+	return ctlNone
 }
 
 func (in *Interp) loopConds(fr *frame, w *a.While, keys ...t.ID) {
@@ -1236,4 +1297,3 @@ func (in *Interp) lvalueContainer(fr *frame, e *a.Expr) *Value {
 	in.unsupported("element store into " + e.Str(in.P.TM))
 	return nil
 }
-
